@@ -243,7 +243,7 @@ Section Stream.
   Definition SI (s : xzr) (R : list Z) : Prop :=
     (exists todo, s = mkXzr (xz_stream_header ct ++ after todo) total None None false multi 0 /\
                   zlen todo = zlen recs /\ (todo <> [] -> xz_block_header o = Ok h) /\
-                  Forall cgood todo /\ R = concat todo) \/
+                  Forall cgood todo /\ (total - zlen (after todo)) mod 4 = 0 /\ R = concat todo) \/
     (exists c todo rem_c, InBlock s c todo rem_c /\ Forall cgood todo /\ R = rem_c ++ concat todo) \/
     (Fin s /\ R = []).
 
@@ -253,16 +253,14 @@ Section Stream.
   Proof. intros (H1 & _) X. apply app_eq_nil in X as [-> _]. cbn in H1. lia. Qed.
 
   Lemma read_step s R sz : SI s R -> 0 < sz ->
-    (forall todo, s = mkXzr (xz_stream_header ct ++ after todo) total None None false multi 0 ->
-                  (total - zlen (after todo)) mod 4 = 0) ->
     exists out s' R', xzr_read xz_fixed s sz = Ok (out, s') /\ R = out ++ R' /\ SI s' R' /\
       (R <> [] -> out <> []) /\ (out = [] -> Fin s').
   Proof.
-    intros HS Hsz Hinit. unfold xzr_read. cbn [fx13 xz_fixed andb].
+    intros HS Hsz. unfold xzr_read. cbn [fx13 xz_fixed andb].
     destruct (Z.leb_spec sz 0) as [?|_]; [lia|].
     assert (Hfuel : exists f, (Z.to_nat (r_total s) + 4)%nat = S (S (S f))) by (exists (Z.to_nat (r_total s) + 1)%nat; lia).
     destruct Hfuel as (f & Hfuel).
-    destruct HS as [(todo & -> & Hlen & Hh & Hg & ->) | [(c & todo & rem_c & HI & Hg & ->) | ((Hf & Hb & Hsrc) & ->)]].
+    destruct HS as [(todo & -> & Hlen & Hh & Hg & Hinit & ->) | [(c & todo & rem_c & HI & Hg & ->) | ((Hf & Hb & Hsrc) & ->)]].
     - (* first call: stream header *)
       cbn [r_finished r_check r_src]. rewrite (xz_parse_stream_header_ok ct _ Hk). cbn [obind fst snd].
       cbn [r_total] in Hfuel. cbn [r_total]. rewrite Hfuel.
@@ -270,7 +268,7 @@ Section Stream.
       assert (HB : Between s1 todo).
       { unfold Between, s1, xzr_set. cbn [r_block r_src r_total r_multi r_blocks].
         split; [reflexivity|]. split; [reflexivity|]. split; [reflexivity|]. split; [reflexivity|].
-        split; [lia|]. split; [apply (Hinit todo eq_refl) | exact Hh]. }
+        split; [lia|]. split; [exact Hinit | exact Hh]. }
       destruct (L_between s1 todo (S f) sz HB Hg Hsz) as (out & s' & E & Hcase). rewrite E.
       destruct todo as [|c todo'].
       + destruct Hcase as (-> & HF). exists [], s', []. split; [reflexivity|]. split; [reflexivity|].
@@ -301,4 +299,148 @@ Section Stream.
       split; [right; right; split; [split; [exact Hf | split; assumption] | reflexivity]|].
       split; [intros X; exact X | intros _; split; [exact Hf | split; assumption]].
   Qed.
+
+  (* ---- a whole history of positive destination sizes ------------------------------------------- *)
+  Lemma xzr_read_all_step f s sizes all acc :
+    xzr_read_all (S f) xz_fixed s sizes all acc =
+    match xzr_read xz_fixed s (fst (l2_next sizes all)) with
+    | Ok (out, s1) =>
+        if (0 <? fst (l2_next sizes all)) && (zlen out =? 0) then Ok (frev acc, 0, s1)
+        else xzr_read_all f xz_fixed s1
+               (match snd (l2_next sizes all) with [] => all | _ => snd (l2_next sizes all) end)
+               all (rev_append out acc)
+    | Err e => Ok (frev acc, e, s)
+    | Panic e => Panic e
+    | Fuel => Fuel
+    end.
+  Proof. cbn [xzr_read_all]. destruct sizes as [|x r]; reflexivity. Qed.
+
+  Theorem read_all_ok : forall fuel s R sizes all acc,
+    SI s R -> Forall (fun z => 0 < z) sizes -> Forall (fun z => 0 < z) all -> (length R + 2 <= fuel)%nat ->
+    exists st, xzr_read_all fuel xz_fixed s sizes all acc = Ok (rev acc ++ R, 0, st) /\ Fin st.
+  Proof.
+    induction fuel as [|f IH]; intros s R sizes all acc HS Hs Ha Hfuel; [lia|].
+    destruct (l2_next_pos sizes all Hs Ha) as (Hsz & Hnext).
+    rewrite xzr_read_all_step.
+    destruct (read_step s R _ HS Hsz) as (out & s1 & R1 & Hrd & HR & HS1 & Hne & Hfin).
+    rewrite Hrd. destruct (Z.ltb_spec 0 (fst (l2_next sizes all))) as [_|?]; [|lia]. cbn [andb].
+    destruct (Z.eqb_spec (zlen out) 0) as [Hz|Hnz].
+    - apply l2_zlen_zero in Hz. subst out. cbn [app] in HR. subst R1.
+      assert (R = []) by (destruct R; [reflexivity | exfalso; apply Hne; [discriminate | reflexivity]]). subst R.
+      exists s1. rewrite frev_rev, app_nil_r. split; [reflexivity | apply Hfin; reflexivity].
+    - assert (Hon : out <> []) by (intros X; subst out; apply Hnz; reflexivity).
+      pose proof (l2_length_pos out Hon) as Hlo.
+      assert (Hlen : length R = (length out + length R1)%nat) by (rewrite HR; apply app_length).
+      destruct (IH s1 R1 _ all (rev_append out acc) HS1 Hnext Ha ltac:(lia)) as (st & Hall & HF).
+      exists st. rewrite Hall, l2_rev_rev_append, <- app_assoc, HR. split; [reflexivity | exact HF].
+  Qed.
 End Stream.
+
+(* ---- from the writer's file to the reader's history -------------------------------------------- *)
+Lemma blocks_bytes_blk lc lp pb ch o : forall blocks bytes recs,
+  xz_blocks_bytes xz_fixed o blocks (map (payload_of (l2_penc lc lp pb ch) delta_fenc o) blocks) = Ok (bytes, recs) ->
+  exists h, (blocks <> [] -> xz_block_header o = Ok h) /\ bytes = concat (map (blk lc lp pb ch o h) blocks).
+Proof.
+  induction blocks as [|c cs IH]; intros bytes recs E; cbn [xz_blocks_bytes map] in E.
+  - inversion E; subst. exists []. split; [congruence | reflexivity].
+  - destruct (xz_block xz_fixed o c (payload_of (l2_penc lc lp pb ch) delta_fenc o c)) as [[bb rec]| | |] eqn:Eb;
+      try discriminate. cbn [obind] in E.
+    destruct (xz_blocks_bytes xz_fixed o cs (map (payload_of (l2_penc lc lp pb ch) delta_fenc o) cs)) as [[bs rs]| | |] eqn:Ecs;
+      try discriminate. cbn [obind fst snd] in E. inversion E; subst bytes recs; clear E.
+    unfold xz_block in Eb. destruct (xz_block_header o) as [h| | |] eqn:Eh; try discriminate. cbn [obind] in Eb.
+    inversion Eb; subst bb rec; clear Eb.
+    destruct (IH bs rs eq_refl) as (h' & Hh' & Hbs). exists h. split; [intros _; reflexivity|].
+    cbn [map concat]. unfold blk at 1, blk_tail, pay. rewrite app_nil_r, <- !app_assoc. do 4 f_equal.
+    destruct cs as [|c2 cs']; [cbn [map concat] in *; exact Hbs|].
+    specialize (Hh' ltac:(discriminate)). assert (h' = h) by congruence. subst h'. exact Hbs.
+Qed.
+
+Lemma xz_blocks_nonempty o0 o parts blocks : 1 <= xo_dict o0 ->
+  xzw_new o0 = Ok o -> xz_blocks_of xz_fixed (xo_block_size o) parts = Ok blocks ->
+  Forall (fun c => 1 <= zlen c) blocks.
+Proof.
+  intros Hd Eo Ebl. unfold xzw_new in Eo. destruct (3 <? zlen (xo_filters o0)); [discriminate|].
+  inversion Eo; subst o; clear Eo. cbn [xo_block_size] in Ebl.
+  destruct (xo_block_size o0) as [b|].
+  - destruct (xz_blocks_fixed_some (Z.max b (xo_dict o0)) parts ltac:(lia)) as (bl & E1 & _ & F1 & _).
+    rewrite E1 in Ebl. inversion Ebl; subst. eapply Forall_impl; [|exact F1]. intros c Hc. cbv beta in Hc. lia.
+  - rewrite xz_blocks_none in Ebl. inversion Ebl; subst blocks. destruct (concat parts) as [|x l]; [constructor|].
+    constructor; [|constructor]. unfold zlen. cbn [length]. lia.
+Qed.
+
+(* XZReader::read under EVERY history of positive destination sizes (cycled): the bytes written,
+   then end of stream; the source is left behind the stream.  [multi] = true (allow multiple
+   streams) is covered when nothing follows the stream; [multi] = false for any following bytes. *)
+Theorem xzr_read_all_rt : forall lc lp pb ch, l2_params_ok lc lp pb -> l2_codec_ok lc lp pb ch ->
+  forall o0 parts f rest multi sizes, stream_ok o0 -> only_delta (xo_filters o0) ->
+    4096 <= xo_dict o0 <= 2147483648 -> bytes_ok (concat parts) = true ->
+    xz_encode (l2_penc lc lp pb ch) delta_fenc xz_fixed o0 parts = Ok f ->
+    (multi = true -> rest = []) -> Forall (fun z => 0 < z) sizes ->
+    forall fuel, (length (concat parts) + 2 <= fuel)%nat ->
+    exists st, xzr_read_all fuel xz_fixed (xzr_new (f ++ rest) multi) sizes sizes [] = Ok (concat parts, 0, st) /\
+               xzr_unconsumed st = rest.
+Proof.
+  intros lc lp pb ch Hpar Hch o0 parts f rest multi sizes Hok Hfs Hd Hb E Hmulti Hsizes fuel Hfuel.
+  pose proof Hok as [[Hk Hfok] Hbs]. unfold xz_encode in E.
+  destruct (xzw_new o0) as [o| | |] eqn:Eo; try discriminate. cbn [obind] in E.
+  destruct (xz_blocks_of xz_fixed (xo_block_size o) parts) as [blocks| | |] eqn:Ebl; try discriminate. cbn [obind] in E.
+  destruct (xz_blocks_cover o0 o parts blocks ltac:(lia) Eo Ebl) as (Ed & Ef & Hcat).
+  assert (Hoc : xo_check o = xo_check o0).
+  { unfold xzw_new in Eo. destruct (3 <? zlen (xo_filters o0)); [discriminate|]. inversion Eo. reflexivity. }
+  assert (Hopts : opts_ok o) by (split; [rewrite Hoc; exact Hk | rewrite Ef; exact Hfok]).
+  pose proof (d_stream_good o0 parts Hfs Hd Hb o blocks Eo Ebl) as Hg.
+  pose proof (xz_blocks_nonempty o0 o parts blocks ltac:(lia) Eo Ebl) as Hne.
+  unfold xz_container in E.
+  destruct (xz_blocks_bytes xz_fixed o blocks (map (payload_of (l2_penc lc lp pb ch) delta_fenc o) blocks))
+    as [[bytes recs]| | |] eqn:Ebb; try discriminate.
+  cbn [obind fx4 xz_fixed] in E.
+  assert (E' : (do idx <- xz_index recs;
+                Ok (xz_stream_header (xo_check o) ++ bytes ++ idx ++ xz_stream_footer (xo_check o) recs)) = Ok f)
+    by (destruct blocks; exact E).
+  clear E. destruct (xz_index recs) as [idx| | |] eqn:Ei; try discriminate. cbn [obind] in E'.
+  inversion E'; subst f; clear E'.
+  destruct (xzd_blocks_rt_c (l2_penc lc lp pb ch) delta_fenc xz_blockdec d_bgood (d_bdec_ok lc lp pb ch Hpar Hch)
+              o Hopts blocks bytes recs Hg Ebb) as (_ & Rk & Lr & _ & _).
+  destruct (blocks_bytes_blk lc lp pb ch o blocks bytes recs Ebb) as (h & Hh & Hbytes).
+  assert (Hcg : Forall cgood blocks).
+  { pose proof Hb as Hb'. rewrite <- Hcat in Hb'. apply Forall_bytes_concat in Hb'.
+    clear - Hne Hb'. induction blocks as [|c cs IH]; [constructor|].
+    inversion Hne; subst. inversion Hb'; subst. constructor; [split; assumption | apply IH; assumption]. }
+  set (src := (xz_stream_header (xo_check o) ++ bytes ++ idx ++ xz_stream_footer (xo_check o) recs) ++ rest).
+  assert (Esrc : src = xz_stream_header (xo_check o) ++ after lc lp pb ch o h recs idx rest blocks).
+  { unfold src, after. rewrite Hbytes, <- !app_assoc. reflexivity. }
+  assert (Hfs' : only_delta (xo_filters o)) by (rewrite Ef; exact Hfs).
+  assert (Hd' : 4096 <= xo_dict o <= 2147483648) by (rewrite Ed; exact Hd).
+  destruct (read_all_ok lc lp pb ch Hpar Hch o Hopts Hfs' Hd' h recs idx Rk Ei rest multi Hmulti (zlen src) fuel
+              (xzr_new src multi) (concat blocks) sizes sizes []) as (st & Hra & (_ & Hbk & Hsrc)).
+  - left. exists blocks. unfold xzr_new. split; [rewrite Esrc at 1; reflexivity|].
+    split; [lia|]. split; [exact Hh|]. split; [exact Hcg|]. split; [|reflexivity].
+    rewrite Esrc, zlen_app, zlen_stream_header. lia.
+  - exact Hsizes.
+  - exact Hsizes.
+  - rewrite Hcat. exact Hfuel.
+  - exists st. cbn [rev app] in Hra. rewrite Hcat in Hra. split; [exact Hra|].
+    unfold xzr_unconsumed. rewrite Hbk. exact Hsrc.
+Qed.
+
+Print Assumptions xzr_read_all_rt.
+
+(* the call-by-call model and the whole-file function agree on these files *)
+Theorem xzr_read_all_is_decode : forall lc lp pb ch, l2_params_ok lc lp pb -> l2_codec_ok lc lp pb ch ->
+  forall o0 parts f multi sizes, stream_ok o0 -> only_delta (xo_filters o0) ->
+    4096 <= xo_dict o0 <= 2147483648 -> bytes_ok (concat parts) = true ->
+    xz_encode (l2_penc lc lp pb ch) delta_fenc xz_fixed o0 parts = Ok f ->
+    Forall (fun z => 0 < z) sizes ->
+    forall fuel, (length (concat parts) + 2 <= fuel)%nat ->
+    exists content left st,
+      xz_decode_c xz_fixed multi f = Ok (content, left) /\
+      xzr_read_all fuel xz_fixed (xzr_new f multi) sizes sizes [] = Ok (content, 0, st) /\
+      xzr_unconsumed st = left.
+Proof.
+  intros lc lp pb ch Hpar Hch o0 parts f multi sizes Hok Hfs Hd Hb E Hsizes fuel Hfuel.
+  destruct (xzr_read_all_rt lc lp pb ch Hpar Hch o0 parts f [] multi sizes Hok Hfs Hd Hb E ltac:(reflexivity) Hsizes fuel Hfuel)
+    as (st & Hra & Hun).
+  rewrite app_nil_r in Hra.
+  exists (concat parts), [], st. split; [|split; assumption].
+  exact (C02_xz_lzma2_delta_thm lc lp pb ch Hpar Hch o0 parts f multi Hok Hfs Hd Hb E).
+Qed.
